@@ -27,7 +27,7 @@ REQUIRED_CLASSES = ['element', 'element-proportion>1', 'substance', 'material-nu
                     'mass-density-given', 'number-density-given', 'with-volume', 'without-volume', 'natural', 'most-abundant',
                     'unit:kg/m3', 'unit:kg/l', 'unit:m-3', 'unit:1/l', 'unit:l', 'unit:m3', 'dict-form', 'string-form',
                     'reread-after-in-place-conversion']
-REQUIRED_MONITORS = ['identity_checks', 'component_rows_checked', 'unit_twins_compared', 'inplace_conversion_rereads', 'table_hygiene_checks']
+REQUIRED_MONITORS = ['mode_twin_tables', 'identity_checks', 'component_rows_checked', 'unit_twins_compared', 'inplace_conversion_rereads', 'table_hygiene_checks']
 ASSUMPTIONS = ['component masses m_i are those reported by data_components() / Element.component_mass (their correctness is C10)',
                'the gram value of 1 Da is the unit table magnitude; unit factors of the twins are exact SI relations of the model '
                '(1 kg/m3 = 1e-3 g/cm3, 1 l = 1e3 cm3, ...), checked once per worker against Quantity.value()',
@@ -183,6 +183,8 @@ def observe(obj, case):
     """everything C12 looks at, as plain floats"""
     o = dict(rho=plain(obj.mass_density.value('g/cm3')), n=plain(obj.number_density.value('cm-3')),
              mass=None if obj.mass is None or case['vol'] is None else plain(obj.mass.value('g')))
+    from vt.props import mat_modes
+    mat_modes.check(obj, tables=('data_matter', 'data_components', 'data_composite'))   # plain / default Quantity reading modes agree
     dm = obj.data_matter(quantity=False)
     rows, srow = {}, None
     for k, v in dm.items():
@@ -305,6 +307,11 @@ def known_mass_fraction_rejection(case, exc):
 
 
 def run_case(case, ctx):
+    from vt.props import mat_modes
+    return mat_modes.drain(_run_case(case, ctx))
+
+
+def _run_case(case, ctx):
     M, T = ctx['M'], ctx['T']
     natural = case['natural']
     mon = dict(identity_checks=0, component_rows_checked=0, unit_twins_compared=0)
